@@ -72,4 +72,26 @@ func init() {
 		Explanation: "aliasing",
 		NotCovered: "values",
 	})
+
+	registerRule(&RuleDef{ID: "X1", Min: 2, Doc: "owner-checked index removal", Run: ruleX1})
+	registerRule(&RuleDef{ID: "X2", Min: 6, Doc: "who may write rows/indexes", Run: ruleX2})
+	registerRule(&RuleDef{ID: "X3", Min: 6, Doc: "index coverage", Run: ruleX3})
+	registerRule(&RuleDef{ID: "X4", Min: 4, Doc: "commit-time check placement", Run: ruleX4})
+	registerRule(&RuleDef{ID: "T-WIRE", Min: 7, Doc: "constant mode wiring", Run: ruleTWIRE})
+	registerProp(&PropDef{
+		ID:    "C05",
+		Rules: []string{"X1", "X2", "X3", "X4", "T-WIRE"},
+		Explanation: "index",
+		NotCovered: "values",
+	})
+
+	registerRule(&RuleDef{ID: "E7", Min: 3, Doc: "purge/populate typestate during reconnect", Run: ruleE7})
+	registerRule(&RuleDef{ID: "R-DEFER", Min: 1, Doc: "emitted by E7", Run: func(p *Program, r *Reporter) {}})
+	registerRule(&RuleDef{ID: "R-ONCE", Min: 2, Doc: "emitted by E7", Run: func(p *Program, r *Reporter) {}})
+	registerProp(&PropDef{
+		ID:    "C16",
+		Rules: []string{"E7", "R-DEFER", "R-ONCE"},
+		Explanation: "reconnect",
+		NotCovered: "values",
+	})
 }
